@@ -16,15 +16,24 @@ impl AtomicCounter {
     }
 
     /// Fetches and returns the current value of the counter, and adds `len` to it.
+    ///
+    /// The counter saturates at `usize::MAX` rather than wrapping around;
+    /// a wrapped counter would hand out the positions that are already yielded once more.
     #[inline(always)]
     pub fn fetch_and_add(&self, len: usize) -> usize {
-        self.current.fetch_add(len, Ordering::AcqRel)
+        let update = |current: usize| Some(current.saturating_add(len));
+        match self
+            .current
+            .fetch_update(Ordering::AcqRel, Ordering::Acquire, update)
+        {
+            Ok(previous) | Err(previous) => previous,
+        }
     }
 
     /// Fetches and returns the current value of the counter, and adds `1` to it.
     #[inline(always)]
     pub fn fetch_and_increment(&self) -> usize {
-        self.current.fetch_add(1, Ordering::AcqRel)
+        self.fetch_and_add(1)
     }
 
     /// Fetches and returns the current value of the counter.
